@@ -162,6 +162,7 @@ static int cb_common(htp_tx_t *tx, int kind, const uint8_t *data, size_t len, in
     hx_obs *o = hx_cur;
     int n = ++o->ncb;
     int rc = HTP_OK;
+    { int sd; (void) rank_of(kind, &sd); if (sd >= 0) o->ncb_side[sd]++; }
 
     /* touch every byte handed out, so the sanitizer validates pointer/len */
     uint64_t h = 0;
